@@ -39,6 +39,8 @@ type Program struct {
 
 	GOOS, GOARCH string
 	Tags         string
+
+	globals *GlobalModel
 }
 
 func repoDir() string {
